@@ -67,8 +67,6 @@ struct thread_wrapper {
     void (*func)(void *arg);
     void *arg;
     struct thread_atexit_callback *atexit;
-    void (*call_once)(void *);
-    void *once_arg;
     struct aws_string *name;
 
     /*
@@ -223,24 +221,22 @@ void aws_thread_clean_up(struct aws_thread *thread) {
     }
 }
 
+/*
+ * Function and argument of the aws_thread_call_once() call in progress on this thread. They are kept apart from the thread
+ * wrapper: a thread that was not created by aws_thread_launch has no wrapper, and must keep having none while its
+ * once-function runs (aws_thread_current_at_exit() documents that it has no effect on such a thread).
+ */
+static AWS_THREAD_LOCAL void (*tl_call_once_fn)(void *) = NULL;
+static AWS_THREAD_LOCAL void *tl_call_once_arg = NULL;
+
 static void s_call_once(void) {
-    tl_wrapper->call_once(tl_wrapper->once_arg);
+    tl_call_once_fn(tl_call_once_arg);
 }
 
 void aws_thread_call_once(aws_thread_once *flag, void (*call_once)(void *), void *user_data) {
-    // If this is a non-aws_thread, then gin up a temp thread wrapper
-    struct thread_wrapper temp_wrapper;
-    if (!tl_wrapper) {
-        tl_wrapper = &temp_wrapper;
-    }
-
-    tl_wrapper->call_once = call_once;
-    tl_wrapper->once_arg = user_data;
+    tl_call_once_fn = call_once;
+    tl_call_once_arg = user_data;
     pthread_once(flag, s_call_once);
-
-    if (tl_wrapper == &temp_wrapper) {
-        tl_wrapper = NULL;
-    }
 }
 
 int aws_thread_init(struct aws_thread *thread, struct aws_allocator *allocator) {
